@@ -12,7 +12,7 @@ from vmc.oracles import aff, picture
 
 WRAPPERS = ["Transform", "Translate", "Scale", "ScaleAroundCenter", "ScaleUniform", "ScaleUniformAroundCenter",
             "Rotate", "RotateAroundCenter", "Skew", "SkewAroundCenter"]
-FILLS = ["solid", "solidA", "fg", "fgA", "linfg", "lin", "linrep", "linrefl", "rad", "radrep", "radrefl", "radring"]
+FILLS = ["solid", "solidA", "fg", "fgA", "linfg", "lin", "linrep", "linrefl", "rad", "radrep", "radrefl", "radring", "solidpa", "linpa"]
 STRUCTURES = ["two_layers", "single", "nested", "colrglyph", "group", "composite_outline", "colrglyph_outer", "layers_outer", "group_outer", "two_glyphs"]
 UNSUPPORTED = ["sweep", "composite_multiply", "composite_gradient_backdrop"]
 FG = (0.0, 0.0, 0.0, 1.0)
@@ -49,7 +49,9 @@ def fill(name):
                        "x0": 250, "y0": 300, "r0": 30, "x1": 300, "y1": 350, "r1": 300}
     ring = {"Format": PF.PaintRadialGradient, "ColorLine": {"ColorStop": [(0, 3), (1, 2)], "Extend": "pad"},
             "x0": 300, "y0": 330, "r0": 120, "x1": 300, "y1": 330, "r1": 300}  # concentric circles, the ramp starts at r0 > 0
-    return {"radring": lambda: ring, "solid": lambda: solid(0), "solidA": lambda: solid(1, 0.5), "fg": lambda: solid(0xFFFF),
+    return {"radring": lambda: ring, "solid": lambda: solid(0), "solidpa": lambda: solid(5, 0.8),
+            "linpa": lambda: dict(lin("pad"), ColorLine={"ColorStop": [{"StopOffset": 0, "PaletteIndex": 5, "Alpha": 0.5},
+                                                                       {"StopOffset": 1, "PaletteIndex": 1, "Alpha": 1.0}], "Extend": "pad"}), "solidA": lambda: solid(1, 0.5), "fg": lambda: solid(0xFFFF),
             "fgA": lambda: solid(0xFFFF, 0.5),
             "linfg": lambda: dict(lin("pad"), ColorLine={"ColorStop": [{"StopOffset": 0, "PaletteIndex": 0xFFFF, "Alpha": 0.25},
                                                                        {"StopOffset": 1, "PaletteIndex": 1, "Alpha": 1.0}], "Extend": "pad"}),
@@ -100,8 +102,9 @@ def make_font(colr, n_palettes=1, version=1, adv=1000, upem=1000, asc=800, desc=
     fb.setupOS2(sTypoAscender=asc, sTypoDescender=desc, usWinAscent=asc, usWinDescent=-desc)
     fb.setupPost()
     fb.setupCOLR(colr, version=version)
-    pal = [(1, 0, 0, 1), (0, 0, 1, 1), (0, 0.5, 0, 1), (1, 1, 0, 1), (0, 0, 0, 1)]
-    pal2 = [(0, 1, 1, 1), (1, 0, 1, 1), (0.5, 0.5, 0, 1), (0, 0, 0.5, 1), (0, 0, 0, 1)]
+    # entry 5 is translucent *in the palette* (alpha of a paint or stop multiplies with it)
+    pal = [(1, 0, 0, 1), (0, 0, 1, 1), (0, 0.5, 0, 1), (1, 1, 0, 1), (0, 0, 0, 1), (0, 0.6, 0.9, 0.5)]
+    pal2 = [(0, 1, 1, 1), (1, 0, 1, 1), (0.5, 0.5, 0, 1), (0, 0, 0.5, 1), (0, 0, 0, 1), (0.9, 0.3, 0, 0.4)]
     fb.setupCPAL([pal] if n_palettes == 1 else [pal, pal2])
     b = io.BytesIO()
     fb.font.save(b)
